@@ -12,7 +12,13 @@ Inductive case :=
 | CPlugin (lv : level) (R : registry) (p : pshape) (r : option resp) (e : err) (o : comp)
 (* proxy.DefaultFactory.New for an endpoint with one backend: static config, registry,
    endpoint and backend plugin configs, result of the backend proxy, observed log/result *)
-| CStack (s : sshape) (R : registry) (pe pb : pshape) (r : option resp) (e : err) (o : comp).
+| CStack (s : sshape) (R : registry) (pe pb : pshape) (r : option resp) (e : err) (o : comp)
+(* values: via 0 = NewPluginMiddleware (pb unconfigured), 1 = NewBackendPluginMiddleware (pe
+   unconfigured), 2 = DefaultFactory; initial request trace v0, trace of the backend's response
+   (None: the backend fails), observed: what every modifier and the backend saw, and the
+   trace of the returned response *)
+| CThread (via : nat) (R : registry) (pe pb : pshape) (v0 : trace) (t0 : option trace)
+          (o : list vevent * vresult).
 
 Definition check_case (c : case) : bool * bool :=
   match c with
@@ -25,6 +31,8 @@ Definition check_case (c : case) : bool * bool :=
   | CStack s R pe pb r e o =>
       (comp_eqb (endpoint_stack s R pe pb r e) o,
        stack_spec_b s R pe pb r e o)
+  | CThread _ R pe pb v0 t0 o =>
+      (vcomp_eqb (vstack R pe pb t0 v0) o, thread_spec_b R pe pb v0 t0 o)
   end.
 
 Fixpoint failing (i : nat) (cs : list case) : list verdict :=
